@@ -64,6 +64,18 @@ def groups(ctx, rng):
 
 def gen(ctx):
     rng = ctx.rng
+    # several threads compiling at the same time: a compilation shares nothing with the others (but the uid counter)
+    for _ in range(60 if ctx.thorough else 6):
+        k = rng.choice([2, 4, 8, 16, 32])
+        srcs = []
+        for _j in range(k):
+            _p = G.gen_program(rng)
+            srcs.append(G.hx(G.render(_p, G.Layout(rng, spelling=rng.choice(["sym", "word"])))))
+        yield Case("CMPPAR", " ".join(srcs), tags=("concurrent-compile",))
+    _deep = "1"
+    for _d in range(7):   # 7 operator nodes: within the 8 temporaries, so the program is accepted
+        _deep = "(+ 1 %s)" % _deep
+    yield Case("CMPPAR", " ".join([G.hx("(def (Report (x 0))) (when true (:= Report.x %s) (report))" % _deep)] * 32), tags=("concurrent-compile",))
     for p, ls, names in groups(ctx, rng):
         first = None
         for k, src in enumerate(ls):
